@@ -3,6 +3,7 @@ import HbsLms.Props.C04
 import HbsLms.Props.C06
 import HbsLms.Props.C08
 import HbsLms.Props.C09
+import HbsLms.Props.C12
 import HbsLms.Props.C13
 import HbsLms.Props.C15
 import HbsLms.Props.C16
